@@ -242,7 +242,8 @@ structure Config where
   mode : Mode
 
 /-- The run of `rare filter|histo <flags> args…` (no follow mode). -/
-def run (cfg : Config) (args : List Path) (fs : FsOracle) (files : Path → FileOracle) (stdin : Bytes) : Result :=
+def run (cfg : Config) (args : List Path) (fs : FsOracle) (files : Path → FileOracle) (stdin : Bytes)
+    (stdinFails : Bool := false) : Result :=
   match usageCheck cfg.batch cfg.readers cfg.gunzip args with
   | some n => { exit := 2, readErrors := 0, readLines := 0, matched := 0, out := [], logs := [.usage n] }
   | none =>
@@ -250,7 +251,7 @@ def run (cfg : Config) (args : List Path) (fs : FsOracle) (files : Path → File
       if usesStdin args then []
       else (args.filter (expandArgBad fs cfg.recursive)).map .pathError
     let srcs : List SrcRun := (plan cfg.recursive args fs).map fun
-      | .stdin => runStdin stdin false
+      | .stdin => runStdin stdin stdinFails
       | .file p => runFile cfg.gunzip p (files p)
     let readErrors := (srcs.map (·.errs)).sum
     let out := srcs.flatMap (outLines cfg.mode)
